@@ -100,6 +100,8 @@ where
     let mut improvement = true;
     let mut partitions: Vec<Vec<HashSet<usize>>> = vec![];
     while improvement {
+        #[cfg(feature = "verif_hooks")]
+        crate::verif_hooks::observe("louvain.level", &[partitions.len(), partition.len()]);
         partitions.push(partition.to_vec());
         let new_mod =
             partitions::modularity(&graphu, &inner_partition, weighted, resolution).unwrap();
@@ -167,6 +169,11 @@ fn compute_one_level(
     let mut nb_moves = 1;
     let mut improvement = false;
     while nb_moves > 0 {
+        #[cfg(feature = "verif_hooks")]
+        crate::verif_hooks::observe(
+            "louvain.sweep",
+            &node2com.iter().sorted().map(|(_, c)| *c).collect::<Vec<usize>>(),
+        );
         nb_moves = 0;
         for u in &shuffled_nodes {
             let mut best_mod = 0.0;
@@ -248,6 +255,12 @@ fn update_best_com(
     resolution: f64,
     directed: bool,
 ) {
+    #[cfg(feature = "verif_hooks")]
+    let weights2com = crate::verif_hooks::order_by_key(
+        "louvain.best_com",
+        weights2com.into_iter().collect::<Vec<(usize, f64)>>(),
+        |e| e.0,
+    );
     for (nbr_com, wt) in weights2com {
         let gain = match directed {
             true => {
@@ -453,6 +466,14 @@ where
     let hm: HashMap<usize, f64> = HashMap::new();
     let empty_hs = HashSet::new();
     let hs = nbrs.get(u).unwrap_or(&empty_hs);
+    #[cfg(feature = "verif_hooks")]
+    let hs_ordered: Vec<T> = crate::verif_hooks::order_by_key(
+        "louvain.nbr_weights",
+        hs.iter().cloned().collect::<Vec<T>>(),
+        |v| v.clone(),
+    );
+    #[cfg(feature = "verif_hooks")]
+    let hs = &hs_ordered;
     hs.iter().fold(hm, |mut acc: HashMap<usize, f64>, v: &T| {
         if u == v {
             return acc;
